@@ -17,7 +17,7 @@ from .astutil import FUNC_TYPES, attr_chain, dotted, norm
 class EffectDomain(DefaultDomain):
     track_lists = True
 
-    def __init__(self, classes, attrs=None, track=None, results=None, raises=None, consts=True, inline=True, log_cap=12, lacks=()):
+    def __init__(self, classes, attrs=None, track=None, results=None, raises=None, consts=True, inline=True, log_cap=12, lacks=(), oracle=None):
         self.classes = classes
         self.attrs = dict(attrs or {})
         self.track = track or (lambda d: False)
@@ -27,6 +27,7 @@ class EffectDomain(DefaultDomain):
         self.inline = inline
         self.log_cap = log_cap
         self.lacks = set(lacks)             # {(object id, attribute)} a wrapped object does not have
+        self.oracle = oracle               # (name, pos, kw) -> [("val", v) | ("exc", e)] | None: behaviour of a wrapped object's method
 
     # -- values -------------------------------------------------------------------------
     def constant(self, node):
@@ -112,11 +113,21 @@ class EffectDomain(DefaultDomain):
                 else:
                     kw.append((k.arg or "**", v))
             log = r.state.get("ev.calls", ())
-            s2 = r.state.set("ev.calls", log + ((name, tuple(pos), tuple(kw)),)) if len(log) < self.log_cap else r.state.set("ev.calls.overflow", 1)
-            for v in self.results.get(name, self.results.get("*." + bound[2], [("ret", bound[1], bound[2])])):
-                out.append(val(v, s2))
-            for e in self.raises.get(name, self.raises.get("*." + bound[2], [])):
-                out.append(exc(e, s2))
+
+            def logged(tag):
+                if len(log) >= self.log_cap:
+                    return r.state.set("ev.calls.overflow", 1)
+                return r.state.set("ev.calls", log + ((name, tuple(pos), tuple(kw), tag),))
+
+            outcomes = self.oracle(name, tuple(pos), tuple(kw)) if self.oracle is not None else None
+            if outcomes is None:
+                outcomes = [("val", v) for v in self.results.get(name, self.results.get("*." + bound[2], [("ret", bound[1], bound[2])]))]
+                outcomes += [("exc", e) for e in self.raises.get(name, self.raises.get("*." + bound[2], []))]
+            for kind, v in outcomes:
+                if kind == "val":
+                    out.append(val(v, logged("ok")))
+                else:
+                    out.append(exc(v, logged(v[1] if isinstance(v, tuple) and len(v) > 1 else "raised")))
         return out
 
     # -- calls --------------------------------------------------------------------------
@@ -167,7 +178,7 @@ class EffectDomain(DefaultDomain):
                     continue
                 s2 = r.state
                 if self.track(d):
-                    entry = (d, tuple(r.value[: len(pos)]), tuple((k.arg or "**", v) for k, v in zip(kws, r.value[len(pos):])))
+                    entry = (d, tuple(r.value[: len(pos)]), tuple((k.arg or "**", v) for k, v in zip(kws, r.value[len(pos):])), "ok")
                     log = s2.get("ev.calls", ())
                     if len(log) < self.log_cap:
                         s2 = s2.set("ev.calls", log + (entry,))
